@@ -3,6 +3,8 @@ package otap
 import (
 	"encoding/json"
 	"fmt"
+	"os"
+	"os/exec"
 	"sort"
 	"strconv"
 	"strings"
@@ -146,6 +148,28 @@ func groupVerdict(g *GroupCase) string {
 	for i := range g.Streams {
 		refs[i] = runAlone(&g.Streams[i])
 	}
+	// "Run alone" above means: alone at that moment, in a process in which
+	// other producer/consumer instances have been used before. When such a run
+	// does not decode to its own input, the stream is run once more in a FRESH
+	// process: if it round-trips there, what differed here was state that
+	// earlier instances left behind - shared mutable state, whatever the
+	// interleaving. (If it does not round-trip in a fresh process either, that
+	// is C04's matter or a listed known finding, and not reported here.)
+	if os.Getenv("VERIF_C16_FRESH") == "" {
+	suspects:
+		for i := range g.Streams {
+			want := g.Streams[i].wantLines()
+			for k, line := range refs[i].lines {
+				if k < len(want) && strings.HasPrefix(line, "ok ") && line != want[k] {
+					fresh, err := runFresh(&g.Streams[i])
+					if err == nil && k < len(fresh) && fresh[k] == want[k] {
+						return fmt.Sprintf("stream %d batch %d decodes to its input in a fresh process (%q) but not in this process, where %d other producer/consumer pairs had been used before it ran alone (%q): instances share state", i, k, fresh[k], i, line)
+					}
+					break suspects // one fresh process per case
+				}
+			}
+		}
+	}
 	got := make([]streamOutcome, len(g.Streams))
 	var wg sync.WaitGroup
 	start := make(chan struct{})
@@ -270,6 +294,13 @@ func TestC16(t *testing.T) {
 		if g.Crowd == 0 && !heavy && pct(t, "complex", 20) {
 			complexN = rapid.SampledFrom([]int{5000, 12000, 40000, 4097, 70000, 64 << 10}).Draw(t, "complexn")
 		}
+		// hash twins: the streams of the group use DIFFERENT members of a pair
+		// of keys that collide under a well-known 32-bit hash (15 % of the
+		// groups) - nothing of one stream may be found again in another
+		var twinPair []string
+		if g.Crowd == 0 && pct(t, "twinsplit", 15) {
+			twinPair = gen.HashTwins[rapid.IntRange(0, len(gen.HashTwins)-1).Draw(t, "twinsplitpair")]
+		}
 		for i := 0; i < n; i++ {
 			o := shared
 			if !sameOpts {
@@ -298,6 +329,11 @@ func TestC16(t *testing.T) {
 				at := rapid.IntRange(0, len(c.Batches)).Draw(t, "complexat")
 				c.Batches = append(c.Batches[:at:at], append(ins, c.Batches[at:]...)...)
 			}
+			if twinPair != nil {
+				kb := Batch{Signal: c.Batches[0].Signal, Synth: fmt.Sprintf("keyed/%s/%d", twinPair[i%2], i)}
+				at := rapid.IntRange(0, len(c.Batches)).Draw(t, "twinat")
+				c.Batches = append(c.Batches[:at:at], append([]Batch{kb}, c.Batches[at:]...)...)
+			}
 			g.Streams = append(g.Streams, *c)
 			shapes = append(shapes, fmt.Sprintf("%s/%d", o.String(), len(c.Batches)))
 		}
@@ -310,6 +346,10 @@ func TestC16(t *testing.T) {
 		if heavy {
 			labels = append(labels, "heavy_streams_with_large_attribute_tables")
 			shapes = append(shapes, "heavy")
+		}
+		if twinPair != nil {
+			labels = append(labels, "streams_use_different_members_of_a_hash_collision_pair")
+			shapes = append(shapes, "twins")
 		}
 		if complexN > 0 {
 			labels = append(labels, "all_streams_send_map_values_of_4_to_70_KiB")
@@ -326,6 +366,52 @@ func TestC16(t *testing.T) {
 			rec.Fail(t, g, "%s", msg)
 		}
 	})
+}
+
+// runFresh runs one stream in a child process of this test binary and returns
+// its outcome lines.
+func runFresh(c *StreamCase) ([]string, error) {
+	f, err := os.CreateTemp("", "c16fresh-*.json")
+	if err != nil {
+		return nil, err
+	}
+	defer os.Remove(f.Name())
+	if err := json.NewEncoder(f).Encode(c); err != nil {
+		return nil, err
+	}
+	_ = f.Close()
+	cmd := exec.Command(os.Args[0], "-test.run", "^TestC16Fresh$", "-test.v")
+	cmd.Env = append(os.Environ(), "VERIF_C16_FRESH="+f.Name(), "VERIF_SHARD_OUT=", "VERIF_REPLAY_OUT=", "VERIF_CURRENT_OUT=")
+	out, err := cmd.Output()
+	if err != nil {
+		return nil, err
+	}
+	var lines []string
+	for _, l := range strings.Split(string(out), "\n") {
+		if strings.HasPrefix(l, "FRESH-LINE ") {
+			lines = append(lines, strings.TrimPrefix(l, "FRESH-LINE "))
+		}
+	}
+	return lines, nil
+}
+
+// TestC16Fresh is the child side of runFresh.
+func TestC16Fresh(t *testing.T) {
+	p := os.Getenv("VERIF_C16_FRESH")
+	if p == "" {
+		t.Skip("only run as a child of the C16 check")
+	}
+	b, err := os.ReadFile(p)
+	if err != nil {
+		t.Fatal(err)
+	}
+	var c StreamCase
+	if err := json.Unmarshal(b, &c); err != nil {
+		t.Fatal(err)
+	}
+	for _, l := range runAlone(&c).lines {
+		fmt.Printf("FRESH-LINE %s\n", l)
+	}
 }
 
 func replayGroupCases(t *testing.T) {
